@@ -30,6 +30,7 @@ int ops_codec(char **args, int na);
 int ops_merger(char **args, int na);
 int ops_sorter(char **args, int na);
 int ops_fileset(char **args, int na);
+int ops_misc(char **args, int na);
 void destroy_fileset(struct obj *o);
 void destroy_sorter(struct obj *o);
 void destroy_merger(struct obj *o);
